@@ -235,21 +235,21 @@ func GenInlineStyled(t *rapid.T, maxRuns, maxLen int) *SNode {
 
 // GenTree draws an arbitrary expression tree over all style functions.
 func GenTree(t *rapid.T, depth int) *SNode {
-	k := rapid.IntRange(0, 9).Draw(t, "node")
+	k := rapid.IntRange(0, 11).Draw(t, "node")
 	if depth <= 0 {
 		k = 0
 	}
 	switch {
-	case k <= 2:
+	case k <= 0:
 		return &SNode{Op: "text", Text: GenText(t, 10, "r")}
-	case k <= 4:
+	case k <= 3:
 		n := rapid.IntRange(1, 3).Draw(t, "nkids")
 		cat := &SNode{Op: "cat"}
 		for i := 0; i < n; i++ {
 			cat.Kids = append(cat.Kids, GenTree(t, depth-1))
 		}
 		return cat
-	case k <= 7:
+	case k <= 8:
 		return &SNode{Op: rapid.SampledFrom(InlineOps).Draw(t, "style"), Kids: []*SNode{GenTree(t, depth-1)}}
 	default:
 		op := rapid.SampledFrom(BlockOps).Draw(t, "block")
